@@ -222,7 +222,7 @@ fn family_soup(t: &mut Tape) -> String {
             continue;
         }
         s.push_str(*t.pick(SOUP));
-        s.push_str(*t.pick(&[" ", " ", "\n", "\t", "", " (* c *) ", "\r\n"]));
+        s.push_str(*t.pick(&[" ", " ", "\n", "\t", "", " (* c *) ", "\r\n", " (*@KEY@:DESCRIPTION*) ", " (*@KEY@:END_DESCRIPTION*) ", " { ", " } "]));
     }
     s
 }
@@ -287,7 +287,7 @@ fn mutate_lexemes(lex: &mut Vec<Lexeme>, t: &mut Tape) {
             }
             5 => {
                 // unbalance a bracket
-                let b = *t.pick(&["(", ")", "[", "]", "END_IF", "END_VAR", ";"]);
+                let b = *t.pick(&["(", ")", "[", "]", "END_IF", "END_VAR", ";", "(*@KEY@:DESCRIPTION*)", "(*@KEY@:END_DESCRIPTION*)", "(* { *)", "(* } *)"]);
                 lex.insert(i, Lexeme { text: b.to_string(), class: Class::Punct, join: crate::lexeme::Join::Space, mark: None });
             }
             _ => {
